@@ -118,7 +118,10 @@ impl<'g, V> MutableSubgrid<'g, V> {
     #[inline]
     unsafe fn get_ptr_unchecked(&self, x: usize, y: usize) -> *mut V {
         let offset = y * self.stride + x;
-        unsafe { self.ptr.as_ptr().add(offset) }
+        // The splitting and merging helpers ask for the position just past the last row, which can
+        // lie beyond the end of the buffer (the last row is `width` long, not `stride`); such a
+        // pointer must not be formed with `add`.
+        self.ptr.as_ptr().wrapping_add(offset)
     }
 
     /// Returns a reference to the sample at the given location.
